@@ -5,8 +5,17 @@ Ghost node state: the account counter N on the node (symbolic).  Abstract state:
                    afterwards the cache equals the returned value  ==> k consecutive calls return N+1, N+2, …, N+k  (induction)
                    raises when the key or the shell is missing (and only then)
    set_counter(v): cache == v;      reset(): cache == None (the next get_counter reads the node again)
-The mempool offset, fill/autofill/inject sequencing are protocol-level history properties: bounded part (props/C25.py).
+   get_counter_offset(): the number of contents whose source is the account's key hash in the `applied` and `unprocessed` sections
+                   of mempool.pending_operations() (both entry layouts), and nothing from refused / outdated / branch_refused /
+                   branch_delayed; every content's source is an opaque value whose equality with the key hash is a free boolean
+fill/autofill/inject sequencing are protocol-level history properties: bounded part (props/C25.py).
+   inject(prevalidate = any bool) / send_async / send: the cache is cleared before the injection RPC and is empty afterwards (RPC
+                   succeeding or raising), so the next get_counter on the shared context reads the node
+Widened (second audit): set_counter / reset start from ANY cache state (None or a symbolic value, i.e. also on top of an earlier
+set_counter / get_counter), get_counter_offset has a deductive part.
 """
+import ast
+import itertools
 import z3
 from vlib.pyvc import Engine, RaiseEx, Sym, Obj, Z, ZB, Unsupported
 from vlib.pyvc.engine import BoundM, IntStr
@@ -87,23 +96,219 @@ def h_get(cached_mode, with_key=True, with_shell=True, calls=1):
     return h
 
 
-def h_set_reset():
+def h_set_reset(cached_mode='none'):
+    """cached_mode: the cache state BEFORE set_counter / reset: 'none' (fresh context) or 'cached' (a symbolic value left by an
+    earlier get_counter / set_counter)"""
     from pytezos.context.impl import ExecutionContext
+    sfx = '' if cached_mode == 'none' else '[cache already set]'
 
     def h(e: Engine):
-        ctx, N, shell = mk_ctx(e, None)
+        c0 = Sym(e.int('cached_before').e) if cached_mode == 'cached' else None
+        ctx, N, shell = mk_ctx(e, c0)
         v = e.int('v')
         e.call(BoundM(ExecutionContext.__dict__['set_counter'], ctx), [v], {})
-        e.check('set_counter::ensures.cache==v', Z(ctx.f['counter']) == v.e)
+        e.check(f'set_counter{sfx}::ensures.cache==v', Z(ctx.f['counter']) == v.e)
         g = e.call(BoundM(ExecutionContext.__dict__['get_counter'], ctx), [], {})
-        e.check('set_counter;get_counter::ensures.v+1_without_reading_the_node', z3.And(Z(g) == v.e + 1, z3.BoolVal(not shell.reads)))
+        e.check(f'set_counter;get_counter{sfx}::ensures.v+1_without_reading_the_node', z3.And(Z(g) == v.e + 1, z3.BoolVal(not shell.reads)))
         # reset clears the cache (other fields are REPL state, stubbed as plain containers)
         for name in ('big_maps', 'tzt_big_maps', 'global_constants'):
             ctx.f[name] = {}
         e.call(BoundM(ExecutionContext.__dict__['reset'], ctx), [], {})
-        e.check('reset::ensures.cache==None', z3.BoolVal(ctx.f['counter'] is None))
+        e.check(f'reset{sfx}::ensures.cache==None', z3.BoolVal(ctx.f['counter'] is None))
         g2 = e.call(BoundM(ExecutionContext.__dict__['get_counter'], ctx), [], {})
-        e.check('reset;get_counter::ensures.node_counter+1_after_a_fresh_read', z3.And(Z(g2) == N + 1, z3.BoolVal(len(shell.reads) == 1)))
+        e.check(f'reset;get_counter{sfx}::ensures.node_counter+1_after_a_fresh_read', z3.And(Z(g2) == N + 1, z3.BoolVal(len(shell.reads) == 1)))
+    return h
+
+
+def h_reset_only(cached_mode):
+    """reset() straight from a cache state (no set_counter in between), then the allocator restarts from the node"""
+    from pytezos.context.impl import ExecutionContext
+
+    def h(e: Engine):
+        c0 = Sym(e.int('cached_before').e) if cached_mode == 'cached' else None
+        ctx, N, shell = mk_ctx(e, c0)
+        for name in ('big_maps', 'tzt_big_maps', 'global_constants'):
+            ctx.f[name] = {}
+        e.call(BoundM(ExecutionContext.__dict__['reset'], ctx), [], {})
+        e.check(f'reset[{cached_mode}]::ensures.cache==None', z3.BoolVal(ctx.f['counter'] is None))
+        g1 = e.call(BoundM(ExecutionContext.__dict__['get_counter'], ctx), [], {})
+        g2 = e.call(BoundM(ExecutionContext.__dict__['get_counter'], ctx), [], {})
+        e.check(f'reset[{cached_mode}];get_counter x2::ensures.node_counter+1,+2_one_read',
+                z3.And(Z(g1) == N + 1, Z(g2) == N + 2, z3.BoolVal(len(shell.reads) == 1)))
+    return h
+
+
+# ------------------------------------------------------------------ get_counter_offset over a mempool with opaque sources
+class GSrc:
+    """the `source` of a pending content: equal to the account's key hash iff the free boolean `b`"""
+    __pyvc_symbolic__ = True
+    __pyvc_strlike__ = True
+
+    def __init__(self, b):
+        self.b = b
+
+    def __pyvc_truth__(self, eng):
+        return True
+
+    def __pyvc_cmp__(self, eng, op, other, refl):
+        if isinstance(op, (ast.Eq, ast.NotEq)):
+            r = Sym(self.b) if other == 'tz1-of-the-key' else False
+            if isinstance(op, ast.Eq):
+                return r
+            return Sym(z3.Not(self.b)) if isinstance(r, Sym) else True
+        return NotImplemented
+
+
+class GMempoolShell:
+    __pyvc_symbolic__ = True
+
+    def __init__(self, answer):
+        self.answer, self.asked = answer, 0
+
+    def __pyvc_truth__(self, eng):
+        return True
+
+    def __pyvc_attr__(self, eng, name):
+        if name in ('mempool', 'pending_operations'):
+            return self
+        raise Unsupported('shell.' + name)
+
+    def __pyvc_call__(self, eng, args, kwargs):
+        self.asked += 1
+        return self.answer
+
+
+MEMPOOL_SHAPES = {
+    # section -> list of entries; an entry = (layout, [content spec]); content spec: 'own?' (symbolic source), 'nosrc' (no source field)
+    'all sections': dict(applied=[('dict', ['own?', 'own?']), ('dict', ['own?', 'nosrc']), ('nocontents', [])],
+                         unprocessed=[('pair', ['own?']), ('dict', ['own?'])],
+                         refused=[('dict', ['own?'])], outdated=[('dict', ['own?'])], branch_refused=[('dict', ['own?'])],
+                         branch_delayed=[('dict', ['own?', 'own?'])]),
+    'no keys': {},
+    'applied only': dict(applied=[('dict', ['own?', 'own?', 'own?'])]),
+    'unprocessed only': dict(unprocessed=[('pair', ['own?', 'own?']), ('pair', ['nosrc'])]),
+    'only non-pending sections': dict(applied=[], unprocessed=[], refused=[('dict', ['own?'])], branch_delayed=[('dict', ['own?'])],
+                                      branch_refused=[('pair', ['own?'])], outdated=[('dict', ['own?'])]),
+}
+
+
+def h_offset(shape_name, with_key=True, with_shell=True):
+    from pytezos.context.impl import ExecutionContext
+
+    def h(e: Engine):
+        e.stub(itertools.chain, lambda eng, a, k: [x for part in a for x in eng.iterate(part)])     # chain == concatenation (CPython)
+        counted, n = [], 0
+        answer = {}
+        for section, entries in MEMPOOL_SHAPES[shape_name].items():
+            lst = []
+            for layout, specs in entries:
+                contents = []
+                for sp in specs:
+                    if sp == 'own?':
+                        b = e.bool(f'src_{section}_{n}_is_the_account').e
+                        n += 1
+                        contents.append({'kind': 'transaction', 'source': GSrc(b), 'counter': '1'})
+                        if section in ('applied', 'unprocessed'):
+                            counted.append(b)
+                    else:
+                        contents.append({'kind': 'endorsement', 'level': 1})
+                op = {'hash': 'o', 'branch': 'B'} if layout == 'nocontents' else {'branch': 'B', 'contents': contents}
+                lst.append(['oHash', op] if layout == 'pair' else op)
+            answer[section] = lst
+        shell = GMempoolShell(answer)
+        o = Obj(ExecutionContext)
+        o.f.update(counter=None, key=GKey() if with_key else None, shell=shell if with_shell else None)
+        tag = f'get_counter_offset[{shape_name}' + ('' if with_key and with_shell else f',key={with_key},shell={with_shell}') + ']'
+        try:
+            r = e.call(BoundM(ExecutionContext.__dict__['get_counter_offset'], o), [], {})
+        except RaiseEx:
+            e.check(f'{tag}::raises.only_if(key or shell missing)', z3.BoolVal(not (with_key and with_shell)))
+            return
+        e.check(f'{tag}::returns.only_if(key and shell present)', z3.BoolVal(with_key and with_shell))
+        want = z3.Sum([z3.If(b, 1, 0) for b in counted]) if counted else z3.IntVal(0)
+        e.check(f'{tag}::ensures.pending_count(own contents in applied + unprocessed, nothing else)', Z(r) == want)
+        e.check(f'{tag}::ensures.mempool_asked_once_cache_untouched', z3.BoolVal(shell.asked == 1 and o.f['counter'] is None))
+    return h
+
+
+# ------------------------------------------------------------------ every injection entry point re-initialises the allocator
+class GInjShell:
+    """shell.injection.operation.post(operation=…, _async=…): records the call and the cache state AT THE TIME of the RPC;
+    shell.contracts[pkh]() as in GShell"""
+    __pyvc_symbolic__ = True
+
+    def __init__(self, N, ok):
+        self.N, self.ok, self.reads, self.posts, self.ctx = N, ok, [], [], None
+
+    def __pyvc_truth__(self, eng):
+        return True
+
+    def __pyvc_attr__(self, eng, name):
+        if name in ('injection', 'operation', 'post', 'contracts'):
+            return self
+        raise Unsupported('shell.' + name)
+
+    def __pyvc_getitem__(self, eng, key):
+        self.reads.append(key)
+        return _K({'counter': IntStr(Sym(self.N)), 'balance': '0'})
+
+    def __pyvc_call__(self, eng, args, kwargs):
+        self.posts.append(dict(kwargs, cache_at_rpc=self.ctx.f['counter']))
+        if not self.ok:
+            raise RaiseEx(RuntimeError('the injection RPC fails (node refuses / connection lost)'))
+        return 'oHashReturnedByTheNode'
+
+
+def h_entry(entry, ok, cached_mode):
+    """entry: 'inject' (prevalidate = a SYMBOLIC bool), 'send_async', 'send' on a group whose context cache is None / an arbitrary
+    value; fill / autofill / sign are replaced by "uses some counters, returns the group" (their own contracts are the bounded
+    part's); the REAL inject / send_async / send ASTs run.  ensures: the cache is cleared BEFORE the injection RPC and is still
+    empty afterwards, whether the RPC succeeds or raises, for every value of prevalidate."""
+    from pytezos.context.impl import ExecutionContext
+    from pytezos.operation.group import OperationGroup
+
+    def h(e: Engine):
+        N = e.int('node_counter', lo=0).e
+        shell = GInjShell(N, ok)
+        ctx = Obj(ExecutionContext)
+        ctx.f.update(counter=Sym(e.int('cached_before').e) if cached_mode == 'cached' else None, key=GKey(), shell=shell,
+                     big_maps={}, tzt_big_maps={}, global_constants={})
+        shell.ctx = ctx
+        g = Obj(OperationGroup)
+        g.f.update(context=ctx, contents=[{'kind': 'transaction', 'counter': '0'}], protocol='P', chain_id='NetX', branch='B', signature='sig',
+                   opg_hash=None, opg_result=None)
+
+        def uses_counters(eng, a, k):       # fill / autofill: hands out counters (the cache ends up set), returns the group
+            a[0].f['context'].f['counter'] = Sym(eng.int('cache_after_filling').e)
+            return a[0]
+        for nm in ('fill', 'autofill'):
+            e.stub(OperationGroup.__dict__[nm], uses_counters)
+        e.stub(OperationGroup.__dict__['sign'], lambda eng, a, k: a[0])
+        e.stub(OperationGroup.__dict__['binary_payload'], lambda eng, a, k: b'forged||signature')
+        tag = f'OperationGroup.{entry}[rpc {"succeeds" if ok else "raises"},cache {cached_mode}]'
+        pre = None
+        try:
+            if entry == 'inject':
+                pre = e.bool('prevalidate')
+                e.call(BoundM(OperationGroup.__dict__['inject'], g), [], dict(prevalidate=pre))
+            elif entry == 'send_async':
+                e.call(BoundM(OperationGroup.__dict__['send_async'], g), [], dict(ttl=5, counter=e.int('counter_argument', lo=1), gas_limit=3040, storage_limit=257))
+            else:
+                e.call(BoundM(OperationGroup.__dict__['send'], g), [], dict(ttl=5))
+        except RaiseEx as ex:
+            e.check(f'{tag}::raises.only_if(the injection RPC raises)', z3.BoolVal(not ok and isinstance(ex.exc, RuntimeError)))
+        else:
+            e.check(f'{tag}::returns.only_if(the injection RPC succeeds)', z3.BoolVal(ok))
+        e.check(f'{tag}::ensures.exactly_one_injection_RPC', z3.BoolVal(len(shell.posts) == 1))
+        e.check(f'{tag}::ensures.cache_cleared_before_the_RPC(for every prevalidate)', z3.BoolVal(bool(shell.posts) and shell.posts[0]['cache_at_rpc'] is None))
+        e.check(f'{tag}::ensures.cache_empty_afterwards', z3.BoolVal(ctx.f['counter'] is None))
+        if shell.posts and entry != 'send':
+            a = shell.posts[0].get('_async')
+            want = z3.Not(ZB(pre)) if pre is not None else z3.BoolVal(True)
+            e.check(f'{tag}::ensures.async_flag==not_prevalidate', (ZB(a) if isinstance(a, Sym) else z3.BoolVal(bool(a))) == want)
+        # the next group of the shared context starts from the node again
+        nxt = e.call(BoundM(ExecutionContext.__dict__['get_counter'], ctx), [], {})
+        e.check(f'{tag};get_counter::ensures.node_counter+1_after_a_fresh_read', z3.And(Z(nxt) == N + 1, z3.BoolVal(len(shell.reads) == 1)))
     return h
 
 
@@ -128,7 +333,34 @@ def run_P(ck):
             eng = Engine()
             run_harness(ck, eng, h_get(mode, wk, ws), f'get_counter[{mode},{wk},{ws}]')
             report(ck, eng, [])
-    eng = Engine()
-    run_harness(ck, eng, h_set_reset(), 'set_counter/reset')
-    report(ck, eng, [])
-    functions_interpreted(ck, eng)
+    for mode in ('none', 'cached'):
+        eng = Engine()
+        run_harness(ck, eng, h_set_reset(mode), f'set_counter/reset[{mode}]')
+        report(ck, eng, [])
+        functions_interpreted(ck, eng)
+        eng = Engine()
+        run_harness(ck, eng, h_reset_only(mode), f'reset[{mode}]')
+        report(ck, eng, [])
+    ck.function(ExecutionContext.get_counter_offset)
+    ck.assume('itertools.chain(a, b, ...) iterates a, then b, ... (CPython); mempool.pending_operations() answers a dict of lists')
+    for shape in MEMPOOL_SHAPES:
+        eng = Engine()
+        run_harness(ck, eng, h_offset(shape), f'get_counter_offset[{shape}]')
+        report(ck, eng, [])
+        functions_interpreted(ck, eng)
+    for wk, ws in ((False, True), (True, False)):
+        eng = Engine()
+        run_harness(ck, eng, h_offset('applied only', wk, ws), f'get_counter_offset[{wk},{ws}]')
+        report(ck, eng, [])
+    from pytezos.operation.group import OperationGroup
+    for f in (OperationGroup.inject, OperationGroup.send_async, OperationGroup.send):
+        ck.function(f)
+    ck.assume('in the injection harnesses fill / autofill / sign are replaced by "leaves some value in the counter cache and returns the group" '
+              '(their contracts are evaluated by the bounded part); the injection RPC either returns a hash or raises')
+    for entry in ('inject', 'send_async', 'send'):
+        for ok in (True, False):
+            for mode in ('cached', 'none'):
+                eng = Engine()
+                run_harness(ck, eng, h_entry(entry, ok, mode), f'{entry}[{ok},{mode}]')
+                report(ck, eng, [])
+                functions_interpreted(ck, eng)
